@@ -215,6 +215,33 @@ def op_inplace_param(rel, src, tree, lines):
                     yield f.name, n.lineno, txt, new
 
 
+def op_del_stmt(rel, src, tree, lines):
+    """delete one simple statement (replace by `pass`) - tracer.py everywhere; utpm.py / algorithms.py in pullback code"""
+    for f in _funcs(tree):
+        if rel != TR and not _is_pb(f.name):
+            continue
+        for n in ast.walk(f):
+            if isinstance(n, (ast.Assign, ast.AugAssign)) or (isinstance(n, ast.Expr) and isinstance(n.value, ast.Call)):
+                if n.lineno != n.end_lineno:
+                    continue
+                if isinstance(n, ast.Expr) and isinstance(n.value.func, ast.Name) and n.value.func.id == 'print':
+                    continue
+                new = _splice(lines, n, 'pass')
+                if new:
+                    yield f.name, n.lineno, 'delete: ' + ast.get_source_segment(src, n)[:80], new
+
+
+def op_drop_reverse(rel, src, tree, lines):
+    """x[::-1] -> x  and reversed(x) -> x"""
+    for f in _funcs(tree):
+        for n in ast.walk(f):
+            if isinstance(n, ast.Subscript) and isinstance(n.slice, ast.Slice) and n.slice.lower is None and n.slice.upper is None \
+                    and n.slice.step is not None and ast.get_source_segment(src, n.slice.step) == '-1' and n.lineno == n.end_lineno:
+                new = _splice(lines, n, ast.get_source_segment(src, n.value))
+                if new:
+                    yield f.name, n.lineno, 'unreverse: ' + ast.get_source_segment(src, n)[:60], new
+
+
 OPERATORS = {
     'aug_to_assign': (op_aug_to_assign, [ALG, UT]),
     'assign_to_aug': (op_assign_to_aug, [ALG]),
@@ -225,6 +252,8 @@ OPERATORS = {
     'index_const': (op_index_const, [ALG]),
     'p_index': (op_p_index, [ALG, UT]),
     'inplace_param': (op_inplace_param, [ALG, UT]),
+    'del_stmt': (op_del_stmt, [TR, UT, ALG]),
+    'drop_reverse': (op_drop_reverse, [ALG, UT, TR]),
 }
 
 
